@@ -223,3 +223,21 @@ def info_len(p_bytes):
     octets after the header; numbered PDUs have a 3 byte header)"""
     pt = ((p_bytes[0] & 3) << 2) | (p_bytes[1] >> 6)
     return len(p_bytes) - (3 if pt in (12, 13, 14) else 2)
+
+
+def parameters(data, start=0, end=None):
+    """the (T, V) list of a parameter TLV string (the general bytes after
+    the LLCP magic number, the information field of a PAX, CONNECT or CC
+    PDU); bounds and length rules are those of the decoder above"""
+    data = bytes(data)
+    return list(_tlvs(data, start, len(data) if end is None else end))
+
+
+def announced_mius(tlv_octets):
+    """every MIU a parameter TLV string announces: 128 + the 11 bit number
+    of each MIUX TLV (4.5.2: the five most significant bits of the two value
+    octets are reserved and ignored by the receiver); [128], the default,
+    when the string has no MIUX TLV"""
+    out = [128 + (struct.unpack(">H", v)[0] & 0x7FF)
+           for t, v in parameters(tlv_octets) if t == T_MIUX]
+    return out or [128]
